@@ -36,6 +36,8 @@ fn obs(m: &BytesMut, parts_cur: usize, pinned: usize) {
     );
 }
 
+static STATIC_PAYLOAD: [u8; 70000] = [0xAB; 70000];
+
 pub fn run_pattern(c0: usize, mmax: usize, style: usize, window: usize, rounds: usize, rng: &mut Rng) {
     ledger::reset_stats();
     let base_live = ledger::A1_TRACKED_BYTES.load(Ordering::SeqCst);
@@ -91,8 +93,13 @@ pub fn run_pattern(c0: usize, mmax: usize, style: usize, window: usize, rounds: 
                 m.extend_from_slice(&payload[..k]);
                 println!("r append {}", k);
             }
-            _ => {
+            1 => {
                 m.extend_from_slice(&payload[..k]);
+                println!("r append {}", k);
+            }
+            _ => {
+                // the same append through `Extend<Bytes>` (a chunk of a static payload: no allocation of its own)
+                m.extend([bytes::Bytes::from_static(&STATIC_PAYLOAD[..k])]);
                 println!("r append {}", k);
             }
         }
@@ -107,7 +114,7 @@ pub fn run_pattern(c0: usize, mmax: usize, style: usize, window: usize, rounds: 
         let len = m.len();
         let leftover = if rng.chance(1, 3) { rng.below(len as u64 / 2 + 1) as usize } else { 0 };
         let n = len - leftover;
-        let st = if style == 7 { *rng.pick(&[0usize, 1, 2, 3, 4, 5, 6, 8, 9]) } else { style };
+        let st = if style == 7 { *rng.pick(&[0usize, 1, 2, 3, 4, 5, 6, 8, 9, 10]) } else { style };
         match st {
             0 => {
                 let p = m.split_to(n);
@@ -137,6 +144,22 @@ pub fn run_pattern(c0: usize, mmax: usize, style: usize, window: usize, rounds: 
                 let p = bytes::Buf::copy_to_bytes(&mut m, n);
                 println!("r splitto {}", n);
                 parts.push_back(Part { h: PartH::B(p), gen });
+            }
+            10 => {
+                // read-loop idiom: grow to the capacity with resize (zero fill), "receive", cut back, consume by split_to
+                let cap = m.capacity();
+                let grow = cap - m.len().min(cap);
+                m.resize(cap.max(m.len()), 0);
+                println!("r append {}", grow);
+                let (c, pn) = count(&parts, gen);
+                obs(&m, c, pn);
+                m.truncate(len);
+                println!("r truncate {}", len);
+                let (c, pn) = count(&parts, gen);
+                obs(&m, c, pn);
+                let p = m.split_to(n);
+                println!("r splitto {}", n);
+                parts.push_back(Part { h: PartH::M(p), gen });
             }
             9 => {
                 // empty the handle, split its whole capacity off and take it back: unsplit onto an empty handle (`*self = other`)
@@ -210,7 +233,7 @@ pub fn run(args: &[String]) -> i32 {
     let ms = [16usize, 100, 4096, 70000];
     for c0 in caps {
         for mm in ms {
-            for style in 0..10 {
+            for style in 0..11 {
                 for window in [0usize, 2] {
                     if !thorough && (c0 + mm + style + window) % 3 != 0 {
                         continue;
